@@ -134,7 +134,7 @@ def run(ctx):
         for cfg in CONFIGS + ([] if ctx.quick else THOROUGH_CONFIGS):
             nt, reqs, own, fail, shared = cfg[:5]
             if cfg in THOROUGH_CONFIGS:
-                limit = 60000
+                limit = 20000
             start = cfg[5] if len(cfg) > 5 else 0
             rej = cfg[6] if len(cfg) > 6 else []
             drop = cfg[7] if len(cfg) > 7 else []
